@@ -447,23 +447,67 @@ func cmdCheck(args []string) int {
 	defer os.RemoveAll(work)
 	// every harness package goes into the overlay (harness packages may use each other's exported helpers);
 	// only the packages holding harnesses of this property are loaded as roots
-	engOverlay, goOverlay, err := overlays(allPkgs, work)
-	if err != nil {
-		fmt.Fprintln(os.Stderr, err)
-		return 2
-	}
+	// A harness file that no longer compiles against the current tree (an unexported function it calls changed its
+	// signature, say) must not take the other harnesses of its package down: such files are dropped and the load is
+	// repeated; what was dropped for this property is reported as inconclusive below.
+	dropped := map[string]string{} // harness file -> first compile error
+	var engOverlay map[string][]byte
+	var goOverlay string
+	var eng *ssaexec.Engine
 	var patterns []string
 	pkgOf := map[string]string{}
-	for _, hp := range sel {
-		patterns = append(patterns, "./"+hp.rel)
-		for _, h := range hp.harness {
-			pkgOf[h] = hp.rel
+	harnessErrRe := regexp.MustCompile(`(?m)^(\S*/(zz_verif_[A-Za-z0-9_]+\.go)):\d+:\d+: (.*)$`)
+	for attempt := 0; ; attempt++ {
+		engOverlay, goOverlay, err = overlays(allPkgs, work)
+		if err != nil {
+			fmt.Fprintln(os.Stderr, err)
+			return 2
 		}
-	}
-	eng, err := ssaexec.Load(ssaexec.Config{RepoDir: repoDir, Overlay: engOverlay, Patterns: patterns})
-	if err != nil {
-		fmt.Printf("INCONCLUSIVE property=%s cannot load /repo with harness overlay: %v\n", *prop, err)
-		return 2
+		patterns, pkgOf = nil, map[string]string{}
+		for _, hp := range sel {
+			if len(hp.files) == 0 {
+				continue
+			}
+			patterns = append(patterns, "./"+hp.rel)
+			for _, h := range hp.harness {
+				pkgOf[h] = hp.rel
+			}
+		}
+		eng, err = ssaexec.Load(ssaexec.Config{RepoDir: repoDir, Overlay: engOverlay, Patterns: patterns})
+		if err == nil {
+			break
+		}
+		bad := map[string]string{}
+		for _, m := range harnessErrRe.FindAllStringSubmatch(err.Error(), -1) {
+			if m[2] != "zz_verif_prelude.go" && bad[m[2]+"|"+filepath.Dir(m[1])] == "" {
+				bad[m[2]+"|"+filepath.Dir(m[1])] = m[3]
+			}
+		}
+		if len(bad) == 0 || attempt >= 6 {
+			fmt.Printf("INCONCLUSIVE property=%s cannot load /repo with harness overlay: %v\n", *prop, err)
+			return 2
+		}
+		for _, hp := range allPkgs {
+			var keep []string
+			for _, f := range hp.files {
+				if why, isBad := bad[filepath.Base(f)+"|"+filepath.Join(repoDir, hp.rel)]; isBad {
+					dropped[f] = why
+					continue
+				}
+				keep = append(keep, f)
+			}
+			if len(keep) != len(hp.files) {
+				hp.files = keep
+				hp.harness = nil
+				for _, f := range keep {
+					src, _ := os.ReadFile(f)
+					for _, m := range harnessFuncRe.FindAllSubmatch(src, -1) {
+						hp.harness = append(hp.harness, string(m[1]))
+					}
+				}
+				sort.Strings(hp.harness)
+			}
+		}
 	}
 	interceptRe := regexp.MustCompile(`(?m)^//\s*INTERCEPT:\s*(\S.*?)\s*=>\s*(\S+)\s*$`)
 	for _, hp := range allPkgs {
@@ -581,6 +625,12 @@ func cmdCheck(args []string) int {
 	if len(hev) == 0 {
 		fmt.Printf("INCONCLUSIVE property=%s no harness selected for tier %s\n", *prop, *tier)
 		return 2
+	}
+	for f, why := range dropped {
+		src, _ := os.ReadFile(f)
+		if strings.Contains(string(src), "func Verif"+*prop+"_") || strings.Contains(filepath.Base(f), "world") || strings.Contains(filepath.Base(f), "export") {
+			inconclusive = append(inconclusive, fmt.Sprintf("harness file %s does not compile against the current tree and was left out: %s", strings.TrimPrefix(f, verifDir+"/"), why))
+		}
 	}
 	// vacuity: every assertion present in the harness code must have been reached on a feasible path of some harness
 	for id, hs := range staticIDs {
